@@ -399,6 +399,16 @@ func (u *Universe) classifyTableRef(t *Table, fn *ssa.Function, in ssa.Instructi
 				}
 			case *ssa.DebugRef:
 				continue
+			case *ssa.Call:
+				// the table handed to a module function (e.g. a method of a named map type) that only looks up in it
+				// or only updates it: this function is then a lookup / registrar through that helper
+				if use := paramMapUse(r, ld, 0); use == "lookup" {
+					addFn(&t.Lookups, fn)
+					continue
+				} else if use == "update" {
+					addFn(&t.Registrar, fn)
+					continue
+				}
 			}
 			allOK = false
 			t.OtherRefs = append(t.OtherRefs, r)
@@ -413,6 +423,59 @@ func (u *Universe) classifyTableRef(t *Table, fn *ssa.Function, in ssa.Instructi
 		}
 	}
 	t.OtherRefs = append(t.OtherRefs, in)
+}
+
+// paramMapUse: call passes the map value v to a static module callee; what does the callee do with that parameter?
+// "lookup" (only Lookup / len, possibly through further such calls), "update" (MapUpdate, possibly with lookups) or ""
+// (anything else: stored, returned, ranged over, passed to unknown code).
+func paramMapUse(call *ssa.Call, v ssa.Value, depth int) string {
+	callee := call.Call.StaticCallee()
+	if callee == nil || callee.Blocks == nil || depth > 3 {
+		return ""
+	}
+	// an instantiation wrapper forwards its parameters to the generic body
+	idx := -1
+	for i, a := range call.Call.Args {
+		if a == v {
+			if idx >= 0 {
+				return ""
+			}
+			idx = i
+		}
+	}
+	if idx < 0 || idx >= len(callee.Params) {
+		return ""
+	}
+	p := callee.Params[idx]
+	res := "lookup"
+	for _, r := range *p.Referrers() {
+		switch r := r.(type) {
+		case *ssa.DebugRef:
+		case *ssa.Lookup:
+			if r.X != p {
+				return ""
+			}
+		case *ssa.MapUpdate:
+			if r.Map != p {
+				return ""
+			}
+			res = "update"
+		case *ssa.Call:
+			if b, ok := r.Call.Value.(*ssa.Builtin); ok && b.Name() == "len" {
+				continue
+			}
+			sub := paramMapUse(r, p, depth+1)
+			if sub == "" {
+				return ""
+			}
+			if sub == "update" {
+				res = "update"
+			}
+		default:
+			return ""
+		}
+	}
+	return res
 }
 
 func addFn(l *[]*ssa.Function, fn *ssa.Function) {
@@ -443,8 +506,17 @@ func (u *Universe) factoryResult(fn *ssa.Function) (string, bool) {
 				return "", false
 			}
 			v := ret.Results[0]
-			if mi, ok := v.(*ssa.MakeInterface); ok {
-				v = mi.X
+			for {
+				// (conversions between pointer types with the same base, as in P(new(T)) of a generic constructor)
+				switch x := v.(type) {
+				case *ssa.MakeInterface:
+					v = x.X
+					continue
+				case *ssa.ChangeType:
+					v = x.X
+					continue
+				}
+				break
 			}
 			al, ok := v.(*ssa.Alloc)
 			if !ok || !al.Heap || al.Block().Parent() != fn {
